@@ -327,6 +327,94 @@ mut('p10-tablerow-zero-cols', ['C01','C11'], ['P10'], [('tags/iteration_tags.go'
 				return tableRowDecorator(cols), nil
 			}''')])
 
+mut('x9-literal-keeps-closing-quote', ['C08'], ['X9'], [('expressions/scanner.go',
+ '''					out.val = string(lex.data[lex.ts+1 : lex.te-1])''',
+ '''					out.val = string(lex.data[lex.ts+1 : lex.te])''')])
+mut('x9-identifier-lowercased', ['C08'], ['X9'], [('expressions/scanner.go',
+ '''					tok = IDENTIFIER
+					out.name = lex.token()''',
+ '''					tok = IDENTIFIER
+					out.name = strings.ToLower(lex.token())'''), ('expressions/scanner.go', '''import "strconv"''', '''import (
+	"strconv"
+	"strings"
+)''')])
+
+mut('b9v-include-shares-bindings', ['C12','C14'], ['B9v'], [('render/context.go',
+ '''	bindings := map[string]any{}
+	for k, v := range c.ctx.bindings {
+		bindings[k] = v
+	}
+	for k, v := range b {''',
+ '''	bindings := c.ctx.bindings
+	for k, v := range b {''')], 'the included template assigns into the includer\'s variables')
+mut('d3-fast-path-skips-parser', ['C02'], ['D3'], [('engine.go',
+ '''	bs, err := e.ParseAndRender([]byte(source), b)
+	if err != nil {
+		return "", err
+	}
+	return string(bs), nil''',
+ '''	if !strings.Contains(source, "{") {
+		return source, nil
+	}
+	bs, err := e.ParseAndRender([]byte(source), b)
+	if err != nil {
+		return "", err
+	}
+	return string(bs), nil'''), ('engine.go', '''import (
+''', '''import (
+	"strings"
+''')], 'an entry point answers without going through the common parse and render functions (wrong under custom delimiters)')
+mut('g4-empty-clause-skipped', ['C06','C10'], ['G4'], [('render/compiler.go',
+ '''	for _, child := range blocks {
+		compiled, err := c.compileNode(child)''',
+ '''	for _, child := range blocks {
+		if len(child.Body) == 0 {
+			continue
+		}
+		compiled, err := c.compileNode(child)''')], 'an empty elsif/when clause is dropped at compile time, so a later clause is taken instead')
+mut('m6-read-before-once', ['C04','C18'], ['M6'], [('values/drop.go',
+ '''func (w *dropWrapper) Test() bool                  { return w.Resolve().Test() }''',
+ '''func (w *dropWrapper) Test() bool                  { return w.v != nil && w.v.Test() }''')], 'reads the lazily resolved field without passing through Once.Do')
+mut('p11-new-node-kind-without-arm', ['C01','C06'], ['P11'], [('parser/parser.go',
+ '''			case tok.Name == "raw":''',
+ '''			case tok.Name == "noop":
+				*ap = append(*ap, &ASTNoop{Token: tok})
+			case tok.Name == "raw":'''), ('parser/ast.go', '''// ASTText is a text span''', '''// ASTNoop is a tag that renders nothing.
+type ASTNoop struct {
+	Token
+}
+
+// ASTText is a text span''')], 'a node kind the compiler switch does not list: compileNode panics on it')
+mut('t10-trim-right-before-token', ['C13'], ['T10'], [('parser/scanner.go',
+ '''			tokens = append(tokens, tok)
+			if source[len(source)-len(delims[3])-1] == '-' {
+				tokens = append(tokens, Token{
+					Type: TrimRightTokenType,
+				})
+			}''',
+ '''			if source[len(source)-len(delims[3])-1] == '-' {
+				tokens = append(tokens, Token{
+					Type: TrimRightTokenType,
+				})
+			}
+			tokens = append(tokens, tok)''')], 'the right-trim marker of a tag is emitted before the tag')
+mut('x6-block-lookup-unchecked', ['C08'], ['X6'], [('render/compiler.go',
+ '''		cd, ok := c.findBlockDef(n.Name)
+		if !ok {
+			return nil, parser.Errorf(n, "undefined tag %q", n.Name)
+		}''',
+ '''		cd, _ := c.findBlockDef(n.Name)''')], 'registry lookup result used without its ok flag')
+mut('x7-map-wrapper-under-ptr', ['C18','C08'], ['X7'], [('values/value.go',
+ '''		if rv.Type().Elem().Kind() == reflect.Struct {
+			return structValue{wrapperValue{value}}
+		}''',
+ '''		if rv.Type().Elem().Kind() == reflect.Struct {
+			return structValue{wrapperValue{value}}
+		}
+		if rv.Type().Elem().Kind() == reflect.Map {
+			return mapValue{wrapperValue{value}}
+		}''')], 'a map wrapper is built around a pointer: its reflect accessors panic')
+
 out = '/verif/selftest/mutants'
 for d in os.listdir(out):
     if d.startswith('own-'):
